@@ -89,6 +89,30 @@ def merge(iv):
     return [tuple(x) for x in out]
 
 
+def aligned_path(T, L, au):
+    """which path _fsm_blk_allocate_aligned_lw has to take for a request of L blocks over the free runs T = [(off,len)]
+    (a function of the free-run layout only; used for the evidence distribution and by the layout generator, never for
+    a verdict): 'none' | 'first' | 'scan' | 'scan-late' (full scan in which a run visited after the finally chosen one
+    lies at a lower offset and is rejected) | 'scan-none' (full scan that finds nothing)"""
+    def fits(o, l):
+        n = roundup(o, au)
+        return n < o + l and l - (n - o) >= L
+    ks = sorted((l, o) for o, l in T)
+    nn = next((k for k in ks if k[0] >= L + au), None) or next((k for k in ks if k[0] >= L), None)
+    if nn is None:
+        return "none"
+    if fits(nn[1], nn[0]):
+        return "first"
+    ak, late = None, False
+    for l, o in ks:
+        if ak is None or o < ak:
+            if fits(o, l):
+                ak, late = o, False
+            elif ak is not None:
+                late = True
+    return "scan-none" if ak is None else ("scan-late" if late else "scan")
+
+
 class Oracle:
     """The abstract specification.  Knows only: what the client asked, what the implementation answered."""
 
@@ -101,6 +125,10 @@ class Oracle:
         self.cfg = None   # (bpow, strict, notrim, mmapall)
         self.pre_close = None
         self.v = []       # (property, message)
+        self.cnt = {}     # which case splits the script reached (evidence distribution only)
+
+    def count(self, k):
+        self.cnt[k] = self.cnt.get(k, 0) + 1
 
     def bs(self):
         return 1 << self.st.M[3]
@@ -174,9 +202,17 @@ class Oracle:
             ln, hint, fl = int(f[1]), int(f[2]), int(f[3])
             self.st = s
             bsz = self.bs()
+            if (fl & F_PAGE) and ln > 0 and prev is not None and not prev.closed:
+                self.count("page-aligned alloc: " + aligned_path(prev.T, roundup(ln, bsz) // bsz, max(1, PAGE // bsz)))
             if rc == 0:
                 a, l = vals[0], vals[1]
                 want = roundup(ln, bsz)
+                if fl & F_SOLID:
+                    self.count("solid alloc")
+                    if l > want:
+                        self.count("solid alloc, over-allocated")
+                        if prev is not None and a + l > max(prev.F, roundup(a + want, PAGE)):
+                            self.count("solid alloc, over-allocated tail beyond EOF in a further page")
                 if a % bsz or l % bsz:
                     self.bad("C10", "%s: region (%d,%d) not aligned to the block size %d" % (line, a, l, bsz))
                 if (fl & F_PAGE) and a % PAGE:
@@ -214,6 +250,8 @@ class Oracle:
                     ov = self.overlaps_live(a, l)
                     if ov:
                         self.bad("C10", "%s: returned region (%d,%d) overlaps live region %s" % (line, a, l, ov))
+                    if (fl & F_SOLID) and a + l > s.F:
+                        self.bad("C10", "%s: solid space requested but region ends at %d beyond the file size %d" % (line, a + l, s.F))
                 if l > 0:
                     self.live[a] = l
                     if pat:
@@ -369,12 +407,155 @@ def gen_script(rng, impl, nops, focus, scripted=None):
         return lines, outs, orc, 0
     seedc = [rng.below(1 << 30)]
     favourite = rng.choice([1, 2, 4, 4, 8])  # scripts dominated by one size produce exact fits
+    # script mode.  "mixed": the uniform mix.  "solid": statistics are kept, sizes cluster (so that the over-allocation
+    # decision fires), regions are rarely written (so that the file stays short and free extents lie beyond its end) and
+    # solid space is requested from extents whose remainder reaches into a further page.  "aligned": free-run layouts are
+    # laid out around the fit threshold of a page-aligned request (length vs. distance to the next page boundary, no run
+    # of request + one page), so that _fsm_blk_allocate_aligned_lw / bitmap relocation / trim take the full scan.
+    mode = rng.weighted([("mixed", 13), ("solid", 3), ("aligned", 4 if bpow not in (12,) else 0)])
+    wnum, wden = rng.choice([(0, 1), (1, 8), (1, 3)]) if mode == "solid" else (2, 3)
+    orc.count("mode " + mode)
 
     def flags():
+        if mode == "solid" and rng.chance(3, 4):
+            return rng.weighted([(0, 4), (F_SOLID, 4), (F_SOLID | F_SYNCBM, 1), (F_NOOVER, 1), (F_SOLID | F_NOOVER, 1),
+                                 (F_SOLID | F_NOSTATS, 1)])
         fl = rng.weighted([(F_NOOVER | F_NOSTATS, 5), (0, 3), (F_NOOVER, 1), (F_NOSTATS, 1), (-1, 3)])
         if fl == -1:
             fl = rng.below(64)
         return fl
+
+    def alloc_line(ln, hint, fl, write=True):
+        """one allocation; appends the observed over-allocation decision for the model; -> (ok, addr, len) """
+        if orc.st.M[1] >= GROW_CAP:
+            fl |= F_NOEXT
+        ok = do("alloc %d %d %d" % (ln, hint, fl))
+        rc, vals, _ = parse_out(outs[-1])
+        if rc == 0 and len(vals) > 1 and vals[1] > roundup(ln, orc.bs()):
+            lines[-1] += " 1"     # (also when the oracle has just objected: the model must follow the same decision)
+        if not ok:
+            return False, None, None
+        if rc != 0:
+            return True, None, None
+        if write and not write_pat(vals[0], vals[1]):
+            return False, vals[0], vals[1]
+        return True, vals[0], vals[1]
+
+    def run_at(blk):
+        """the maximal free run of the current bitmap that contains block blk"""
+        for o, l in runs_of(orc.st.B)[0]:
+            if o <= blk < o + l:
+                return o, l
+        return None
+
+    def do_solid_round():
+        """clustered sizes with statistics and without writes, then solid requests a little shorter than a free extent"""
+        bsz = orc.bs()
+        au = max(1, PAGE // bsz)
+        base = max(rng.range(2, 4) * au, 12) + rng.below(au)
+        j = rng.range(1, 3)
+        got = []
+        for _ in range(rng.range(4, 9)):
+            ln = max(1, base + rng.range(-j, j)) * bsz - rng.choice([0, 0, 1])
+            ok, a, l = alloc_line(ln, 0, rng.weighted([(0, 6), (F_NOOVER, 2), (F_SOLID, 1)]), write=False)
+            if not ok:
+                return False
+            if a is not None:
+                got.append(a)
+        victims = [got[i] for i in sorted(set(rng.below(len(got)) for _ in range(rng.range(1, 3))))] if got else []
+        for a in victims:
+            if a not in orc.live:
+                continue
+            if not do("free %d %d" % (a, orc.live[a])):
+                return False
+            r_ = run_at(a // bsz)
+            if r_ is None:
+                continue
+            o, rl = r_
+            r0 = (o + rl) % au or au          # blocks of the run behind its last page boundary
+            rest = rng.choice([r0, r0, r0, r0 + 1, max(1, r0 - 1), rng.range(1, 6)])
+            if rest >= rl or rl > 64 * au:
+                continue
+            fl = F_SOLID | rng.choice([0, 0, 0, F_SYNCBM, F_NOSTATS])
+            ok, _, _ = alloc_line((rl - rest) * bsz - rng.choice([0, 0, 1]), o * bsz if rng.chance(2, 3) else 0, fl,
+                                  write=rng.chance(1, 3))
+            if not ok:
+                return False
+        return True
+
+    def do_layout():
+        """all free space is taken, then free runs are cut out of the largest live region at chosen distances from the
+        page boundaries with lengths around the fit threshold of a page-aligned request of L blocks; then the request"""
+        bsz = orc.bs()
+        au = max(1, PAGE // bsz)
+        zr = runs_of(orc.st.B)[0]
+        if len(zr) > 10:
+            return True
+        for o, l in zr:
+            ok, _, _ = alloc_line(l * bsz, o * bsz, F_NOOVER | F_NOSTATS | F_NOEXT, write=rng.chance(1, 4))
+            if not ok:
+                return False
+        if not orc.live:
+            return True
+        ca = max(orc.live, key=lambda x: orc.live[x])
+        cb, cl = ca // bsz, orc.live[ca] // bsz
+        lk = rng.weighted([(1, 4), (2, 2), (3, 1)])
+        L = lk * au if rng.chance(3, 4) else max(1, lk * au + rng.range(-2, 2))
+        stride = lk + 3
+        p0 = roundup(cb, au) // au + 1
+        nslots = ((cb + cl) // au - p0) // stride
+        n = min(rng.range(3, 9), nslots)
+        if n < 1:
+            return True
+        span = min(nslots, rng.choice([n, 2 * n, 16, nslots]))
+        slots = set()
+        while len(slots) < n:
+            slots.add(rng.below(max(span, n)))
+
+        def pick(lo, hi):
+            return lo if hi <= lo else rng.choice([lo, hi, min(lo + 1, hi), max(hi - 1, lo), rng.range(lo, hi)])
+
+        # a run at distance delta behind a page boundary holds the aligned request iff its length >= T = L + (au - delta) % au.
+        # Run kinds: too short for L / long enough for L but not from the next boundary on / fitting; lengths sit at the
+        # two thresholds.  At most one run of L + au blocks or more per layout (then the first attempt is not abandoned).
+        big = rng.chance(1, 6)
+        specs = []
+        for i in range(n):
+            cat = rng.weighted([("short", 1), ("misfit", 4 if au > 1 else 0), ("fit", 3)])
+            if cat == "misfit":
+                delta = rng.choice([1, 1, 2 % au or 1, au - 1, au // 2 or 1, rng.range(1, au - 1)])
+            else:
+                delta = rng.choice([0, 0, 0, 1, au - 1, au // 2, rng.below(au)]) % au
+            T = L + (au - delta) % au
+            if cat == "short":
+                ln = pick(1, L - 1)
+            elif cat == "misfit":
+                ln = rng.choice([T - 1, T - 1, L, pick(L, T - 1)])
+            else:
+                ln = rng.choice([T, T, T + 1, pick(T, L + au - 1)])
+            if big and i == 0:
+                ln = L + au + rng.range(0, 3)
+            specs.append((ln, delta))
+        # the index is walked in (length, offset) order while the scan prefers low offsets: offset order against /
+        # along / independent of the length order
+        order = rng.weighted([("anti", 2), ("corr", 1), ("rand", 1)])
+        slots = sorted(slots, key=lambda x: (x * 2654435761) & 0xffff)
+        if order != "rand":
+            specs.sort()
+            slots = sorted(slots, reverse=(order == "anti"))
+        start = 0
+        for (ln, delta), sl in zip(specs, slots):
+            pb = p0 + sl * stride
+            start = pb * au + delta
+            ln = max(1, min(ln, (pb + stride) * au - 1 - start, cb + cl - start))
+            if not do("free %d %d" % (start * bsz, ln * bsz)):
+                return False
+        for _ in range(rng.range(1, 3)):
+            fl = F_PAGE | rng.choice([F_NOEXT, F_NOEXT, 0]) | rng.choice([0, 0, F_NOOVER | F_NOSTATS, F_SOLID, F_NOSTATS])
+            ok, _, _ = alloc_line(L * bsz - rng.choice([0, 0, 0, 1]), rng.choice([0, 0, start * bsz]), fl)
+            if not ok:
+                return False
+        return True
 
     def do_alloc():
         s = orc.st
@@ -384,7 +565,8 @@ def gen_script(rng, impl, nops, focus, scripted=None):
         # model is linear in the bitmap length, a script that keeps doubling it would dominate the whole run)
         capped = s.M[1] >= GROW_CAP
         kind = rng.weighted([("fav", 8), ("small", 6), ("bytes", 3), ("exact", 5), ("page", 2),
-                             ("big", 1 if (rng.chance(1, 3) and not capped) else 0), ("zero", 1)])
+                             ("big", 1 if (rng.chance(1, 3) and not capped) else 0), ("zero", 1),
+                             ("near", 5 if mode == "solid" else 1)])
         fl = flags()
         hint = 0
         if kind == "fav":
@@ -402,6 +584,14 @@ def gen_script(rng, impl, nops, focus, scripted=None):
                 fl |= F_NOEXT
             if l > 4096:
                 fl &= ~F_SOLID
+        elif kind == "near" and [r_ for r_ in zr if 2 <= r_[1] <= 2048]:
+            # a little less than a free run: the remainder is what the over-allocation decision looks at; the lengths aim
+            # at a request that ends at the last page boundary inside the run
+            o, l = rng.choice([r_ for r_ in zr if 2 <= r_[1] <= 2048])
+            au = max(1, PAGE // bsz)
+            d = rng.choice([1, 2, (o + l) % au or au, rng.range(1, 6)])
+            ln = max(1, l - d) * bsz
+            hint = o * bsz if rng.chance(2, 3) else 0
         elif kind == "page":
             ln = rng.range(1, 3) * PAGE
             fl |= F_PAGE if rng.chance(3, 4) else 0
@@ -421,18 +611,19 @@ def gen_script(rng, impl, nops, focus, scripted=None):
             fl &= ~F_SOLID
         if capped:
             fl |= F_NOEXT
-        if not do("alloc %d %d %d" % (ln, hint, fl)):
-            return False
+        ok = do("alloc %d %d %d" % (ln, hint, fl))
         rc, vals, _ = parse_out(outs[-1])
+        # the oracle decision of the over-allocation heuristic, observed on the implementation
+        if rc == 0 and len(vals) > 1 and vals[1] > roundup(ln, bsz):
+            lines[-1] += " 1"
+        if not ok:
+            return False
         if rc == 0:
-            # the oracle decision of the over-allocation heuristic, observed on the implementation
-            if vals[1] > roundup(ln, bsz):
-                lines[-1] += " 1"
             return write_pat(vals[0], vals[1])
         return True
 
     def write_pat(a, l):
-        if rng.chance(2, 3) and l > 0:
+        if wnum and rng.chance(wnum, wden) and l > 0:
             n = min(l, WCAP)
             seedc[0] += 1
             return do("w %d %d %d" % (a, n, seedc[0]))
@@ -497,14 +688,17 @@ def gen_script(rng, impl, nops, focus, scripted=None):
             nl = 0
         else:
             nl = l - rng.choice([0, 1])
-        fl = flags() & ~F_SOLID
+        fl = flags()
+        if not (mode == "solid" and nl <= 64 * PAGE):
+            fl &= ~F_SOLID
         if orc.st.M[1] >= GROW_CAP:
             fl |= F_NOEXT
-        if not do("realloc %d %d %d %d" % (nl, a, l, fl)):
-            return False
+        ok = do("realloc %d %d %d %d" % (nl, a, l, fl))
         rc, vals, _ = parse_out(outs[-1])
-        if rc == 0 and vals[1] > roundup(nl, bsz) and roundup(nl, bsz) > l:
+        if rc == 0 and len(vals) > 1 and vals[1] > roundup(nl, bsz) and roundup(nl, bsz) > l:
             lines[-1] += " 1"
+        if not ok:
+            return False
         if rc == 0 and vals[1] > 0:
             return read_pat(vals[0])
         return True
@@ -566,12 +760,23 @@ def gen_script(rng, impl, nops, focus, scripted=None):
         return True
 
     wa, wf = (10, 7) if focus == "C10" else (9, 8)
+    if mode == "solid" and not do_solid_round():
+        return lines, outs, orc, len(lines) - 1
+    if mode == "aligned" and not do_layout():
+        return lines, outs, orc, len(lines) - 1
     for _ in range(nops):
+        if len(lines) >= 2 * nops + 20:
+            break
         op = rng.weighted([("alloc", wa), ("free", wf), ("freen", 3), ("realloc", 4), ("invalid", 2), ("chk", 2),
                            ("reopen", 1 if focus == "C10" else 2), ("sync", 1), ("clear", 1 if rng.chance(1, 4) else 0),
-                           ("freeall", 1 if rng.chance(1, 3) else 0)])
+                           ("freeall", 1 if rng.chance(1, 3) else 0),
+                           ("solidround", 2 if mode == "solid" else 0), ("layout", 2 if mode == "aligned" else 0)])
         ok = True
-        if op == "alloc":
+        if op == "solidround":
+            ok = do_solid_round()
+        elif op == "layout":
+            ok = do_layout()
+        elif op == "alloc":
             ok = do_alloc()
         elif op == "free":
             ok = do_free()
@@ -631,6 +836,8 @@ def worker(args):
                     if k == "free" and l.endswith("invalid"):
                         k = "free-invalid"
                     res["dist"][k] = res["dist"].get(k, 0) + 1
+                for k, v in orc.cnt.items():
+                    res["dist"][k] = res["dist"].get(k, 0) + v
                 ck = "cfg bpow=%s" % lines[0].split()[1]
                 res["dist"][ck] = res["dist"].get(ck, 0) + 1
                 bml = set(m.group(1) for m in (re.search(r" M=\d+:(\d+):", o) for o in outs) if m)
